@@ -40,6 +40,7 @@ def c6(ctx):
     census.mechanism_census(ctx, ["serialize", "__str__", "items", "keys", "values", "__iter__", "__getitem__", "get", "__init__", "_parse", "__setitem__", "update", "setdefault", "move_to_end", "__eq__", "__ne__", "from_str", "from_msd", "_from_msd", "__delitem__", "pop", "popitem", "clear"], "SM serialize / parse", modules=["simfile.base", "simfile.sm", "simfile._private.serializable"])
     entry.constructor_funnel(ctx)
     views.equality(ctx)
+    entry.text_entry_points(ctx)
 
 def c_api(ctx):
     baseline.surface(ctx, "C01: documented surface", modules=['simfile.sm', 'simfile.base', 'simfile._private.serializable'])
